@@ -392,7 +392,7 @@ def check_fftnoise(ctx, rule="R4-hermitian-random-phase"):
     setup()
     ARRAY_KIND["spec"] = "complex"; ARRAY_KIND["phi"] = "real"
     bad = []
-    for N in range(2, 10):
+    for N in range(2, 25 if getattr(ctx, 'tier', 'quick') == 'thorough' else 10):
         I = make_interp(repo)
         caught = []
 
